@@ -66,10 +66,11 @@ class Spec(object):
               | ('typeerror-body', message) | ('unconvertible',)
     """
 
-    def __init__(self, name, params="*args, **kwargs", behave=("echo",)):
+    def __init__(self, name, params="*args, **kwargs", behave=("echo",), kind="plain"):
         self.name = name
         self.params = params
         self.behave = behave
+        self.kind = kind      # plain | wraps | bare-wrapper | partial | callable-instance | bound-method
         self._sig = None
 
     @property
@@ -125,7 +126,42 @@ class Spec(object):
         fn = ns["probe_fn"]
         fn.__name__ = "probe_" + "".join(c if c.isalnum() else "_" for c in self.name)
         fn._vf_spec = self
+        return wrap_kind(fn, self.kind)
+
+
+def wrap_kind(fn, kind):
+    """The same callable as registered by real users: decorated, partial, callable object, bound method."""
+    import functools
+    if kind == "plain":
         return fn
+    if kind == "wraps":
+        @functools.wraps(fn)
+        def wrapper(*args, **kwargs):
+            return fn(*args, **kwargs)
+        return wrapper
+    if kind == "bare-wrapper":
+        def wrapper(*args, **kwargs):
+            return fn(*args, **kwargs)
+        wrapper.__name__ = fn.__name__
+        return wrapper
+    if kind == "partial":
+        return functools.partial(fn)
+    if kind == "callable-instance":
+        class Callable(object):
+            __name__ = fn.__name__
+
+            def __call__(self, *args, **kwargs):
+                return fn(*args, **kwargs)
+        return Callable()
+    if kind == "bound-method":
+        class Holder(object):
+            def method(self, *args, **kwargs):
+                return fn(*args, **kwargs)
+        return Holder().method
+    raise AssertionError(kind)
+
+
+KINDS = ["plain", "wraps", "bare-wrapper", "partial", "callable-instance", "bound-method"]
 
 
 class Namespace(object):
